@@ -1408,7 +1408,7 @@ func (c *Client) sendSingleMsg(client *smtp.Client, message *Msg) error {
 			client.SetDSNMailReturnOption(string(c.dsnReturnType))
 		}
 	}
-	if err = client.Mail(from); err != nil {
+	if err = client.Mail(smtpMailbox(from)); err != nil {
 		retError := &SendError{
 			Reason: ErrSMTPMailFrom, errlist: []error{err}, isTemp: isTempError(err),
 			affectedMsg: message, errcode: errorCode(err),
@@ -1428,7 +1428,7 @@ func (c *Client) sendSingleMsg(client *smtp.Client, message *Msg) error {
 	rcptNotifyOpt := strings.Join(c.dsnRcptNotifyType, ",")
 	client.SetDSNRcptNotifyOption(rcptNotifyOpt)
 	for _, rcpt := range rcpts {
-		if err = client.Rcpt(rcpt); err != nil {
+		if err = client.Rcpt(smtpMailbox(rcpt)); err != nil {
 			rcptSendErr.Reason = ErrSMTPRcptTo
 			rcptSendErr.errlist = append(rcptSendErr.errlist, err)
 			rcptSendErr.rcpt = append(rcptSendErr.rcpt, rcpt)
@@ -1605,4 +1605,44 @@ func (c *Client) tls(client *smtp.Client, isEnc *bool) error {
 		*isEnc = tlsConnState.HandshakeComplete
 	}
 	return nil
+}
+
+// smtpMailbox returns the given mail address in the form that is required for the reverse-path
+// and forward-path of the SMTP MAIL FROM and RCPT TO commands.
+//
+// The addresses of a Msg are stored with the local part in its unquoted form. If the local
+// part is not a dot-string as defined in RFC 5321, section 4.1.2 (i. e. it contains a space,
+// '<', '>', '@', ',', ';', ':', a backslash or a double quote), it needs to be transmitted as
+// quoted-string. Sending it as is would result in a malformed command or would allow the
+// local part to add arguments to the command.
+//
+// Parameters:
+//   - address: The mail address with an unquoted local part.
+//
+// Returns:
+//   - The mail address with the local part quoted, if required.
+func smtpMailbox(address string) string {
+	at := strings.LastIndex(address, "@")
+	if at < 0 {
+		return address
+	}
+	local, domain := address[:at], address[at+1:]
+	isDotString := local != "" && local[0] != '.' && local[len(local)-1] != '.' &&
+		!strings.Contains(local, "..")
+	for i := 0; i < len(local) && isDotString; i++ {
+		char := local[i]
+		switch {
+		case char >= 'a' && char <= 'z', char >= 'A' && char <= 'Z', char >= '0' && char <= '9':
+		case char >= 0x80: // UTF-8 (SMTPUTF8)
+		case strings.IndexByte("!#$%&'*+-/=?^_`{|}~.", char) >= 0:
+		default:
+			isDotString = false
+		}
+	}
+	if isDotString {
+		return address
+	}
+	local = strings.ReplaceAll(local, `\`, `\\`)
+	local = strings.ReplaceAll(local, `"`, `\"`)
+	return `"` + local + `"@` + domain
 }
